@@ -541,8 +541,36 @@ pub fn make_tokenizer(
     ignore_space: bool,
     max_grouping_len: usize,
 ) -> Result<vibrato::Tokenizer, String> {
-    let t = vibrato::Tokenizer::new(dict)
-        .ignore_space(ignore_space)
-        .map_err(|e| format!("ignore_space: {e}"))?;
-    Ok(t.max_grouping_len(max_grouping_len))
+    make_tokenizer_h(dict, ignore_space, max_grouping_len, 0)
+}
+
+/// Puts the options in place through a history of setter calls selected by `history`; whatever the
+/// history, the values in force are those of the last call of each setter.
+///   bit 0: max_grouping_len is first set to another value (24 if the final one is 0 or 1, else 0 ... see below)
+///   bit 1: the setters are called in the other order (max_grouping_len before ignore_space)
+///   bit 2: ignore_space is toggled true → false first (only when the final value is true, i.e. SPACE exists)
+pub fn make_tokenizer_h(
+    dict: vibrato::Dictionary,
+    ignore_space: bool,
+    max_grouping_len: usize,
+    history: u8,
+) -> Result<vibrato::Tokenizer, String> {
+    let mut t = vibrato::Tokenizer::new(dict);
+    if history & 1 != 0 {
+        // an earlier, different limit: a small one when the final value is "unlimited"/large, "unlimited" otherwise
+        let earlier = if max_grouping_len == 0 || max_grouping_len > 3 { 1 + usize::from(history >> 1) % 3 } else { 0 };
+        t = t.max_grouping_len(earlier);
+    }
+    if history & 4 != 0 && ignore_space {
+        t = t.ignore_space(true).map_err(|e| format!("ignore_space: {e}"))?;
+        t = t.ignore_space(false).map_err(|e| format!("ignore_space: {e}"))?;
+    }
+    if history & 2 != 0 {
+        t = t.max_grouping_len(max_grouping_len);
+        t = t.ignore_space(ignore_space).map_err(|e| format!("ignore_space: {e}"))?;
+    } else {
+        t = t.ignore_space(ignore_space).map_err(|e| format!("ignore_space: {e}"))?;
+        t = t.max_grouping_len(max_grouping_len);
+    }
+    Ok(t)
 }
